@@ -234,7 +234,10 @@ def trace(mc, nsteps: int, snap=None, on_trial=None, at_yield=None, resnap=False
             prev_name, prev_snap = str(nm), s
             k += 1
             if at_yield is not None:
-                at_yield(mc)
+                try:
+                    at_yield(mc, prev_name)
+                except TypeError:
+                    at_yield(mc)
     return ntr
 
 
